@@ -138,11 +138,9 @@ Fixpoint mx_resolve_elems (rec : mx_bytes -> mx_res) (l : list mxv) : list mxv *
       end
   end.
 
-(* one macro: lines 254-316 *)
-Definition mx_resolve1 (rec : mx_bytes -> mx_res) (env : list mx_level) (esc : bool) (name : mx_bytes) : mx_res :=
-  let '(found0, v0, recur) := mx_resolve_macro env name in
-  let found := if mx_beq name [] then true else found0 in
-  let v1 := if mx_beq name [] then MxStr [mx_ch_dollar] else v0 in
+(* lines 275-316, given what the look-up of lines 254-273 produced *)
+Definition mx_resolve1_with (rec : mx_bytes -> mx_res) (esc : bool) (lk : mx_lookup_res) : mx_res :=
+  let '(found, v1, recur) := lk in
   let miss := negb found in
   let r :=
     if recur then
@@ -164,6 +162,19 @@ Definition mx_resolve1 (rec : mx_bytes -> mx_res) (env : list mx_level) (esc : b
   | MxThrow e => MxThrow e
   | MxOk v m => MxOk (if esc then mx_escape_macro_shell_arg v else v) m
   end.
+
+(* one macro: lines 254-316.  `$$` (empty name) is the literal dollar sign, decided BEFORE any look-up
+   (code as of the fix 4feca083: a custom variable named "" no longer interferes) *)
+Definition mx_resolve1 (rec : mx_bytes -> mx_res) (env : list mx_level) (esc : bool) (name : mx_bytes) : mx_res :=
+  mx_resolve1_with rec esc
+    (if mx_beq name [] then (true, MxStr [mx_ch_dollar], false) else mx_resolve_macro env name).
+
+(* the code BEFORE that fix, kept only for the record of the finding (C09_dollar_old_code_refuted):
+   the empty name was looked up first and recursive_macro of that look-up survived the `$$` rule *)
+Definition mx_resolve1_pre_fix (rec : mx_bytes -> mx_res) (env : list mx_level) (esc : bool) (name : mx_bytes) : mx_res :=
+  let '(found0, v0, recur) := mx_resolve_macro env name in
+  mx_resolve1_with rec esc
+    (if mx_beq name [] then true else found0, if mx_beq name [] then MxStr [mx_ch_dollar] else v0, recur).
 
 (* the while loop over the tokens; [acc] = result[0..offset), [strlen] = str.GetLength() of the ORIGINAL
    string (line 319 compares against it, not against the current result) *)
